@@ -1,9 +1,15 @@
 import Driver.Util
 import CRModel.EqHash
+import CRModel.HashKey
 open Lean CR.Drv
 
 namespace CR.Drv.C12
 open CR.EqHash
+
+def cls (s : String) : P Cls :=
+  match Cls.ofName? s with
+  | some c => pure c
+  | none => throw s!"C12: unknown class family {s}"
 
 /-- null | number | {"r": "n/d"} | {"s": str} | [ ... ] | {"c": family, "f": [ ... ]} -/
 partial def val (j : Json) : P Val := do
@@ -21,20 +27,69 @@ partial def val (j : Json) : P Val := do
     | _, some s, _ => pure (.str (← asStr s))
     | _, _, some c => do
       let f ← val (← field j "f")
-      pure (.obj (← asStr c) f)
+      pure (.obj (← cls (← asStr c)) f)
     | _, _, _ => throw s!"C12: bad value {j.compress}"
+
+def ctr (s : String) : P Ctr :=
+  match s with
+  | "list" => pure .list | "tuple" => pure .tuple | "set" => pure .set | "frozenset" => pure .frozenset
+  | "dict" => pure .dict | "ndarray" => pure .ndarray
+  | _ => throw s!"C12: unknown container {s}"
+
+def chain (vs : List PyVal) : PyVal := vs.foldr (fun h t => .cons h t) .nil
+
+/-- typed values: null | {"r"} | {"s"} | {"t": container, "e": [elements]} (dict: elements are [key, value]) |
+    {"c": family, "f": [attribute values]} -/
+partial def pyval (j : Json) : P PyVal := do
+  match j with
+  | .null => pure .none
+  | .obj _ =>
+    match fieldOpt j "r", fieldOpt j "s", fieldOpt j "t", fieldOpt j "c" with
+    | some r, _, _, _ => pure (.num (← asRat r))
+    | _, some s, _, _ => pure (.str (← asStr s))
+    | _, _, some t, _ => do
+      let t ← ctr (← asStr t)
+      let es ← asArr (← field j "e")
+      if t == .dict then
+        let items ← es.mapM fun e => do
+          match ← asArr e with
+          | [k, v] => pure (PyVal.ctr .tuple (chain [← pyval k, ← pyval v]))
+          | _ => throw "C12: dict item must be [key, value]"
+        pure (.ctr .dict (chain items))
+      else
+        pure (.ctr t (chain (← es.mapM pyval)))
+    | _, _, _, some c => do
+      let fs ← asArr (← field j "f")
+      pure (.obj (← cls (← asStr c)) (chain (← fs.mapM pyval)))
+    | _, _, _, _ => throw s!"C12: bad typed value {j.compress}"
+  | _ => throw s!"C12: bad typed value {j.compress}"
 
 def pair (j : Json) : P (Val × Val) := do
   match ← asArr j with
   | [a, b] => pure (← val a, ← val b)
   | _ => throw "C12: expected [x, y]"
 
-def tableJ (row : ClassRow) : Json :=
-  let whole := row.wholeHash.isSome
+def tableJ (c : Cls) : Json :=
+  let r := row c
+  let whole := r.wholeHash.isSome
   Json.mkObj [
-    ("attrs", Json.arr (row.attrs.map (fun r => Json.str r.name)).toArray),
-    ("eq", Json.arr (row.attrs.map (fun r => Json.bool (r.eqK != .skip))).toArray),
-    ("hash", Json.arr (row.attrs.map (fun r => Json.bool (whole || r.hashK != .skip))).toArray)]
+    ("attrs", Json.arr (r.attrs.map (fun a => Json.str a.name)).toArray),
+    ("eq", Json.arr (r.attrs.map (fun a => Json.bool (a.eqK != .skip))).toArray),
+    ("hash", Json.arr (r.attrs.map (fun a => Json.bool (whole || a.hashK != .skip))).toArray),
+    ("hattrs", Json.arr ((hrow c).attrs.map (fun a => Json.str a.name)).toArray),
+    ("dynamic", Json.bool r.dynamic),
+    ("content", Json.arr ((contentAttrs c).map Json.str).toArray)]
+
+def ctorJ (cr : CtorRow) : Json :=
+  Json.mkObj [
+    ("cls", Json.str cr.cls), ("family", Json.str cr.family.name),
+    ("params", Json.arr (cr.params.map (fun pa => Json.arr #[Json.str pa.1, Json.str pa.2])).toArray)]
+
+def hashOk (x : PyVal) : Json :=
+  let typed := match x with
+    | .obj c _ => wellTyped c x
+    | _ => false
+  Json.mkObj [("typed", Json.bool typed), ("ok", Json.bool (hashCompletes x))]
 
 def handle (op : String) (a : Json) : P Json := do
   match op with
@@ -42,8 +97,13 @@ def handle (op : String) (a : Json) : P Json := do
     let ps ← getList pair a "ps"
     pure <| Json.arr (ps.map fun (x, y) =>
       Json.mkObj [("eq", Json.bool (eqv x y)), ("hash", Json.bool (hashEqv x y))]).toArray
+  | "hash_ok" =>
+    let vs ← getList pyval a "vs"
+    pure <| Json.arr (vs.map hashOk).toArray
   | "tables" =>
-    pure <| Json.mkObj (classes.map fun row => (row.name, tableJ row))
+    pure <| Json.mkObj (Cls.all.map fun c => (c.name, tableJ c))
+  | "ctors" =>
+    pure <| Json.arr (ctors.map ctorJ).toArray
   | _ => throw s!"C12: unknown op {op}"
 
 end CR.Drv.C12
